@@ -2026,17 +2026,30 @@ insert_list:
         }
         if (!q.th || !cnt || !m_ooo_resume)
             return;
+        // out-of-order mode: also resume the waiters behind the head whose
+        // demand fits. q.lock is held during the scan, so (1) th->lock must
+        // only be try_lock()-ed here, as everyone else takes th->lock BEFORE
+        // the queue lock (a busy thread is leaving the queue by itself, just
+        // skip it); and (2) th is taken out of the queue right here, so that
+        // prelocked_thread_interrupt() will not lock the queue once again.
+        auto lst = (thread_list*)&q;
         SCOPED_LOCK(q.lock);
-        for (auto th = q.th->next();
-                  th!= q.th && cnt;
-                  th = th->next()) {
-            SCOPED_LOCK(th->lock);
-            auto& c = th->semaphore_count;
-            if (c <= cnt) {
-                VERIF_COV(C_SEM_OOO_NONHEAD);
-                cnt -= c;
-                prelocked_thread_interrupt(th, -1);
+        auto head = q.th;
+        if (!head) return;
+        for (auto th = head->next(); th != head && cnt; ) {
+            auto next = th->next();
+            if (th->lock.try_lock() == 0) {
+                DEFER(th->lock.unlock());
+                auto c = th->semaphore_count;
+                if (c <= cnt) {
+                    VERIF_COV(C_SEM_OOO_NONHEAD);
+                    cnt -= c;
+                    lst->erase(th);
+                    th->waitq = nullptr;
+                    prelocked_thread_interrupt(th, -1);
+                }
             }
+            th = next;
         }
     }
     inline bool semaphore::try_subtract(uint64_t count) {
